@@ -16,7 +16,7 @@ EXTENDS Integers, Sequences, FiniteSets, TLC, Json
 
 CONSTANTS Tokens,     \* set of character sequences; a pattern is a concatenation of at most MaxTok of them
           MaxTok,
-          Shard, NShards,   \* the patterns are divided over NShards TLC runs by a hash of their first two tokens
+          Shard, NShards,   \* the patterns are divided over NShards TLC runs by a hash of their first three tokens
           EmitFrom,   \* patterns with fewer tokens are extended but not emitted
           FullUpTo,   \* patterns of at most this many tokens get the long battery and the subjects Subjects
           TokensLong, \* the tokens of longer patterns (a subset of Tokens)
@@ -389,15 +389,18 @@ EmitPattern(toks) ==
 
 Sink == << <<"DONE">> >>
 Lens == {Len(s) : s \in Subjects \cup SubjectsLong}
-(* sharding: patterns of fewer than two tokens belong to shard 0, the others to the shard their first two tokens hash to *)
+(* sharding: a pattern belongs to the shard its first three tokens hash to; every shard walks the patterns of *)
+(* fewer than three tokens (cheap), deeper ones only if they are its own                                      *)
 RECURSIVE HashChars(_, _)
 HashChars(cs, j) == IF j > Len(cs) THEN 0 ELSE (Code(cs[j]) * (3 * j + 1) + HashChars(cs, j + 1)) % 1000003
-Mine(p) == IF Len(p) < 2 THEN Shard = 0 ELSE HashChars(p[1] \o <<"|">> \o p[2], 1) % NShards = Shard
+RECURSIVE FlattenSep(_)
+FlattenSep(ts) == IF ts = <<>> THEN <<>> ELSE ts[1] \o <<"|">> \o FlattenSep(Tail(ts))
+Mine(p) == HashChars(FlattenSep(IF Len(p) <= 3 THEN p ELSE SubSeq(p, 1, 3)), 1) % NShards = Shard
 Init == /\ pat = <<>>
         /\ \A l \in Lens : \A full \in BOOLEAN : Emit([hdr |-> l, full |-> B2I(full), calls |-> Battery(l, full), bad |-> BadReasons])
 Extend(p, t) == LET q == Append(p, t) IN
   /\ Len(q) <= FullUpTo \/ \A i \in 1..Len(q) : q[i] \in TokensLong
-  /\ Len(q) < 2 \/ Mine(q)
+  /\ Len(q) < 3 \/ Mine(q)
   /\ pat' = q
 Next == /\ pat # Sink
         /\ (Len(pat) >= EmitFrom /\ Mine(pat) => EmitPattern(pat))
